@@ -40,6 +40,7 @@ type Program struct {
 	callersOf map[*ssa.Function][]*CallEdge
 	outEdges  map[*ssa.Function][]*CallEdge
 	implCache map[string][]*ssa.Function
+	loadMemo  map[*ssa.Function]map[string]bool
 }
 
 type LoadOpts struct {
